@@ -31,12 +31,19 @@ import time
 ROOT = os.path.dirname(os.path.abspath(__file__))
 LEAN = os.path.join(ROOT, "lean")
 HARNESS = os.path.join(ROOT, "harness")
-WORK = os.path.join(ROOT, "work")
+GWORK = os.path.join(ROOT, "work")          # shared between runs: locks, audit cache, manifests
 EVIDENCE = os.path.join(ROOT, "evidence")
-REPLAY = os.path.join(ROOT, "replay")
 CORPUS = os.path.join(ROOT, "corpus")
 PROPS = os.path.join(ROOT, "props")
 REPO = os.environ.get("EASYML_REPO", "/repo")
+if os.path.abspath(REPO) == "/repo":
+    WORK = GWORK
+    REPLAY = os.path.join(ROOT, "replay")
+else:
+    # a run against a scratch checkout keeps all its files apart, so that concurrent runs of the
+    # same property against different checkouts cannot read each other's streams
+    WORK = os.path.join(GWORK, "scratch-" + hashlib.sha1(os.path.abspath(REPO).encode()).hexdigest()[:8])
+    REPLAY = os.path.join(WORK, "replay")
 ALLOWED_AXIOMS = {"propext", "Classical.choice", "Quot.sound"}
 FORBIDDEN = re.compile(
     r"\b(sorry|admit|native_decide|bv_decide|implemented_by|unsafe)\b|^\s*axiom\s|maxHeartbeats\s+0\b"
@@ -78,8 +85,8 @@ class Lock:
     """Serialises lake / cargo builds between concurrently running checks."""
 
     def __init__(self, name):
-        os.makedirs(WORK, exist_ok=True)
-        self.path = os.path.join(WORK, name + ".lock")
+        os.makedirs(GWORK, exist_ok=True)
+        self.path = os.path.join(GWORK, name + ".lock")
 
     def __enter__(self):
         self.f = open(self.path, "w")
@@ -130,6 +137,25 @@ def harness_target_dir(profile_release=False):
     return os.path.join(HARNESS, "target-" + repo_tag())
 
 
+def harness_dir():
+    """Directory holding the generated Cargo.toml of the harness for the checkout under test.
+    For /repo it is harness/ itself; for a scratch checkout (EASYML_REPO) it is a directory of
+    symlinks under work/, so that concurrent runs against different checkouts neither rewrite
+    each other's manifest nor wait for one another's builds."""
+    if os.path.abspath(REPO) == "/repo":
+        return HARNESS
+    d = os.path.join(GWORK, "hm-" + repo_tag())
+    os.makedirs(d, exist_ok=True)
+    for name in ("src", ".cargo", "Cargo.toml.in"):
+        link = os.path.join(d, name)
+        if not os.path.islink(link):
+            try:
+                os.symlink(os.path.join(HARNESS, name), link)
+            except FileExistsError:
+                pass
+    return d
+
+
 def harness_bin(pid, release=False):
     return os.path.join(harness_target_dir(), "release" if release else "debug", "emlv-" + pid)
 
@@ -146,27 +172,31 @@ def build_harness(pid=None, release=False):
     """Builds the harness binary of one property (or of all, pid=None) against the checkout under
     test; one binary per property (harness/src/bin/emlv-Cxx.rs) keeps rebuilds after a change
     of the checkout small.  Returns the path of the property's binary."""
-    with Lock("cargo"):
+    hdir = harness_dir()
+    with Lock("cargo" if hdir == HARNESS else "cargo-" + repo_tag()):
         with open(os.path.join(HARNESS, "Cargo.toml.in")) as f:
             tmpl = f.read()
         feats = '"verif-hooks"' if hooks_available() else ""
         text = (tmpl.replace("@REPO@", os.path.abspath(REPO)).replace("@FEATURES@", feats)
                 .replace("@HFEATURES@", '"hooks"' if feats else ""))
-        cargo_toml = os.path.join(HARNESS, "Cargo.toml")
+        cargo_toml = os.path.join(hdir, "Cargo.toml")
         old = open(cargo_toml).read() if os.path.exists(cargo_toml) else None
         if old != text:
             with open(cargo_toml, "w") as f:
                 f.write(text)
-        lock = os.path.join(HARNESS, "Cargo.lock")
+        lock = os.path.join(hdir, "Cargo.lock")
         if not os.path.exists(lock):
-            shutil.copy(os.path.join(REPO, "Cargo.lock"), lock)
+            for cand in (os.path.join(HARNESS, "Cargo.lock"), os.path.join(REPO, "Cargo.lock"), "/repo/Cargo.lock"):
+                if os.path.exists(cand) and cand != lock:
+                    shutil.copy(cand, lock)
+                    break
         cmd = ["cargo", "build", "--offline", "--quiet", "--target-dir", harness_target_dir()]
         cmd += ["--bin", "emlv-" + pid] if pid else ["--bins"]
         if release:
             cmd.append("--release")
         env = dict(ENV)
         env["RUSTFLAGS"] = env.get("RUSTFLAGS", "") + " -Awarnings"
-        rc, out, err = sh(cmd, cwd=HARNESS, check=False, env=env, timeout=3600)
+        rc, out, err = sh(cmd, cwd=hdir, check=False, env=env, timeout=3600)
         if rc != 0:
             raise MachineryError("harness build failed against " + REPO + ":\n" + err[-6000:])
     return harness_bin(pid, release) if pid else None
@@ -236,8 +266,8 @@ def forbidden_scan():
 
 def audit_theorems(pid, module, theorems):
     """Returns dict theorem -> {'ok': bool, 'axioms': [...], 'why': str}.  Cached by source hash."""
-    os.makedirs(os.path.join(WORK, "audit"), exist_ok=True)
-    cache_path = os.path.join(WORK, "audit", pid + ".json")
+    os.makedirs(os.path.join(GWORK, "audit"), exist_ok=True)
+    cache_path = os.path.join(GWORK, "audit", pid + ".json")
     key = lean_source_hash() + "|" + ",".join(theorems)
     if os.path.exists(cache_path):
         try:
@@ -253,7 +283,7 @@ def audit_theorems(pid, module, theorems):
         for t in theorems:
             result[t]["why"] = "lake build " + " ".join(modules) + " failed"
         return result, logtxt[-4000:]
-    src = os.path.join(WORK, "audit", f"Audit_{pid}.lean")
+    src = os.path.join(GWORK, "audit", f"Audit_{pid}.lean")
     with open(src, "w") as f:
         for mod in modules:
             f.write(f"import {mod}\n")
@@ -564,7 +594,8 @@ def check(pid, tier, seed):
                "bin": bin_path, "sh": sh, "lake_build": lake_build, "lean": LEAN, "env": ENV,
                "build_harness": build_harness, "bin_for": lambda p, release=False: build_harness(p, release),
                "model_bin": MODEL_BIN, "log": log, "corr": corr,
-               "MachineryError": MachineryError, "harness_target_dir": harness_target_dir()}
+               "MachineryError": MachineryError, "harness_target_dir": harness_target_dir(),
+               "harness_dir": harness_dir()}
         os.makedirs(ctx["work"], exist_ok=True)
         extra_result = extra.run(ctx)
 
